@@ -5,6 +5,7 @@ import (
 	"sort"
 	"strings"
 	"testing"
+	"time"
 
 	"github.com/ProtonMail/gluon/imap/command"
 	"pgregory.net/rapid"
@@ -184,7 +185,11 @@ func (m *machine) revealingAttrs() []command.FetchAttribute {
 
 // retarget replaces the arguments of a drawn command by ones that would be effective if the command were allowed:
 // mailbox names that exist (for this or another user), valid sets, a valid message with a marker.
-func (m *machine) retarget(c *conn, p command.Payload) {
+//
+// exec tells that the state model admits the command, so that gluon will execute it: then every argument is replaced
+// (plain flags, attributes and search keys), because what gluon does with arbitrary arguments of an admitted command
+// is the subject of C11/C13/C14/C16. For a command that is refused anyway the rest of C10's draw is kept.
+func (m *machine) retarget(c *conn, p command.Payload, exec bool) {
 	switch p := p.(type) {
 	case *command.Select:
 		p.Mailbox = m.poolName()
@@ -219,16 +224,24 @@ func (m *machine) retarget(c *conn, p command.Payload) {
 		p.Flags = nil
 
 		if m.chance("append-flags", 1, 2) {
-			p.Flags = []string{pick(m, "append-flag", []string{`\Seen`, `\Flagged`, `\Deleted`, `\Answered`, `\Draft`})}
+			p.Flags = []string{pick(m, "append-flag", plainFlags)}
+		}
+
+		if exec {
+			p.DateTime = time.Time{}
 		}
 	case *command.Fetch:
 		p.SeqSet = m.validSet()
 
-		if m.chance("fetch-revealing", 2, 3) {
+		if exec || m.chance("fetch-revealing", 2, 3) {
 			p.Attributes = m.revealingAttrs()
 		}
 	case *command.Store:
 		p.SeqSet = m.validSet()
+
+		if exec {
+			p.Flags = []string{pick(m, "store-flag", plainFlags)}
+		}
 	case *command.Copy:
 		p.SeqSet = m.validSet()
 		p.Mailbox = m.poolName()
@@ -236,7 +249,7 @@ func (m *machine) retarget(c *conn, p command.Payload) {
 		p.SeqSet = m.validSet()
 		p.Mailbox = m.poolName()
 	case *command.Search:
-		if m.chance("search-simple", 2, 3) {
+		if exec || m.chance("search-simple", 2, 3) {
 			p.Charset = ""
 			p.Keys = []command.SearchKey{pick(m, "search-key", []command.SearchKey{&command.SearchKeyAll{},
 				&command.SearchKeySubject{Value: "vmk"}, &command.SearchKeyHeader{Field: "X-Verif-Marker", Value: "u"}, &command.SearchKeyUnseen{}})}
@@ -244,9 +257,11 @@ func (m *machine) retarget(c *conn, p command.Payload) {
 	case *command.UIDExpunge:
 		p.SeqSet = m.validSet()
 	case *command.UID:
-		m.retarget(c, p.Command)
+		m.retarget(c, p.Command, exec)
 	}
 }
+
+var plainFlags = []string{`\Seen`, `\Flagged`, `\Deleted`, `\Answered`, `\Draft`, "$Forwarded", "work"}
 
 // drawCommand draws any command form with a payload of C10's generator; `effective` tells whether its arguments
 // were retargeted (or it has none).
@@ -279,7 +294,7 @@ func (m *machine) drawCommand(c *conn) (name string, p command.Payload, effectiv
 	refusedAnyway := cls == clNotAuth || cls == clGone || (categories[name] == catSelected && cls == clNoSel && !c.uncertain)
 
 	if !refusedAnyway || m.chance("retarget", 4, 5) {
-		m.retarget(c, p)
+		m.retarget(c, p, !refusedAnyway)
 
 		// own mailboxes are the ones worth selecting when the connection is authenticated
 		if c.user >= 0 && (name == "SELECT" || name == "EXAMINE") && m.chance("own-box", 2, 3) {
@@ -383,6 +398,14 @@ func (m *machine) login(c *conn, cr cred, kind string) {
 
 	m.scan(c, res, "LOGIN")
 
+	if res.Bye && cls == clSel {
+		// the selected mailbox went away (deleted by a session of the same user): the server ends the session
+		w.label("bye:selected-mailbox-gone")
+		c.enter(stDead)
+
+		return
+	}
+
 	if cls != clNotAuth {
 		// a second LOGIN is refused whatever the credentials are, and the session keeps its identity
 		if res.OK() || res.Status == "" {
@@ -396,6 +419,22 @@ func (m *machine) login(c *conn, cr cred, kind string) {
 		if m.chance("verify-second-login", 1, 4) {
 			w.verifyViews(-1, "a second LOGIN was refused")
 		}
+
+		return
+	}
+
+	if res.Status == "BAD" {
+		// A failed login is answered NO; BAD would mean that the command was rejected before the credential check
+		// and perhaps not counted by the server. The model is brought back in step by a successful login (it resets
+		// both counters; if it comes after a third failure it is still subject to the lower bound).
+		w.label("jail:resync-after-bad")
+
+		if want >= 0 {
+			w.fatalf("C18 violated: LOGIN with the exact credentials of user %d (%q %q) was answered BAD %s", want, cr.User, cr.Pass, res.Text)
+		}
+
+		c.enter(stFailedLogin)
+		w.observe(0)
 
 		return
 	}
@@ -635,8 +674,15 @@ func (m *machine) allowed(c *conn, name string, p command.Payload, eff bool, res
 			w.label("steer:unselect-after-failed-select")
 
 			tag := m.tag(c)
-			if r, _, _ := w.send(c, tag, m.encode(tag, &command.Unselect{}), false); r.Err != nil {
+
+			r, _, _ := w.send(c, tag, m.encode(tag, &command.Unselect{}), false)
+			if r.Err != nil {
 				w.transport("UNSELECT on "+c.name, r.Err)
+			}
+
+			if r.Bye {
+				c.enter(stDead)
+				return
 			}
 		}
 
@@ -680,12 +726,12 @@ func (m *machine) ownBox(c *conn, name, mbox string, res *imapc.Result) {
 	snap := w.current(c.user)
 	box := snap.box(mbox)
 
-	if box == nil || !box.Selectable {
+	if box == nil {
 		w.fatalf("C18 violated (isolation): %s %q succeeded on %s (user %d), but the user has no such mailbox\nfresh view of the user:\n  %s", name, mbox, c.name, c.user, snap)
 	}
 
 	for _, u := range res.Untagged {
-		if n, kw, ok := u.Num(); ok && kw == "EXISTS" && int(n) != len(box.Msgs) {
+		if n, kw, ok := u.Num(); ok && kw == "EXISTS" && box.Selectable && int(n) != len(box.Msgs) {
 			w.fatalf("C18 violated (isolation): %s %q on %s (user %d) announced %d messages, the user's mailbox holds %d\nfresh view of the user:\n  %s", name, mbox, c.name, c.user, n, len(box.Msgs), snap)
 		}
 	}
